@@ -45,7 +45,13 @@ def cmd_check(args, vx):
     t0 = time.time()
     prop = args.prop
     tier = args.tier if args.tier in ("quick", "thorough") else "quick"
-    seed = int(os.environ.get("VERIF_SEED", "0") or 0)
+    try:
+        seed = int(os.environ.get("VERIF_SEED", "0") or 0)
+    except ValueError:
+        # any string is a valid seed: a non-numeric one is hashed
+        import zlib
+        seed = zlib.crc32(os.environ["VERIF_SEED"].encode())
+    seed &= 0xFFFFFFFFFFFFFFFF
     cfg = vx.load_cfg()
     if prop not in cfg["properties"]:
         print(f"TOOL: property {prop} is not claimed (see MANIFEST not_applicable)")
